@@ -180,7 +180,8 @@ class Doc:
         r = self.rng
         for i in range(n):
             if allow_ghost and r.random() < 0.1:
-                self.ghost()
+                for _ in range(r.choice([1, 1, 1, 2, 3, 9, 20])):
+                    self.ghost()
             self.scalar(r.choice(self.KEYK))
             self.out += EQUAL
             self.value(depth, True)
@@ -193,9 +194,10 @@ class Doc:
         ind = self.open()
         n = r.choice([1, 1, 2, 3, 5])
         # `{ {} {} k=v }`: leading empties are dropped once the '=' shows the container is an object
-        lead = r.random() < 0.08
+        lead = r.random() < 0.12
         if lead:
-            for _ in range(r.choice([1, 2, 3])):
+            # any number of leading empties is dropped (no cap): short runs and runs beyond every plausible small limit
+            for _ in range(r.choice([1, 2, 3, 1, 2, 7, 8, 9, 10, 16, 17, 33, 64])):
                 self.ghost()
         self.fields(depth, n, False)
         self.close(ind, True)
